@@ -9,6 +9,7 @@ CONSTANTS
   InitStores <- AbsentStore
   PublishAfterUnlock = FALSE
   CreatedRevalidated = TRUE
+  DeleteHoldsLock = TRUE
   Equiv = "none"
   SubSer = FALSE
   MayCancel = FALSE
